@@ -85,6 +85,9 @@ def run_c06(chk):
         t = rng.choice(vals + [0.3, 0.5, 0.45, 0.75]) if method != 'turchin' else rng.choice([0.0, 0.5, 0.9])
         if again is not None:
             t = again
+        elif rng.random() < 0.12:
+            t = rng.choice([0, 0.0])          # only identical words (distance exactly 0) are to be joined
+            chk.hist['LexStat.cluster with threshold zero'] += 1
         prev = (d, lex, method, t, link, scored)
         ref = 'customid'
         used = []
